@@ -46,8 +46,10 @@ def SnapOk (s : State) (seqs : List (BitVec 32)) (acc : List PoolSelect.Conn) : 
   (∀ (k : Nat) (c : PoolSelect.Conn), acc[k]? = some c → c.id = k ∧ c.seqno.toNat ≤ s.heads.getD k 0)
 
 structure InvL (s : State) : Prop where
-  readOk : ∀ i seqs, s.run = .ubRead i seqs → seqs.length = i ∧ SnapOk s seqs []
-  selOk : ∀ i seqs acc, s.run = .ubSel i seqs acc → acc.length = i ∧ SnapOk s seqs acc
+  readOk : ∀ i seqs rts, s.run = .ubRead i seqs rts → seqs.length = i ∧ SnapOk s seqs []
+  selOk : ∀ i seqs rts acc, s.run = .ubSel i seqs rts acc → acc.length = i ∧ SnapOk s seqs acc
+  selLe : ∀ i seqs rts acc, s.run = .ubSel i seqs rts acc → i ≤ s.heads.length
+  bestOk : ∀ c, s.best = some c → c < s.heads.length
   connOk : ∀ (j : Nat) (x : Setter), s.setters[j]? = some x → x.conn < s.heads.length
   sendLe : ∀ (j : Nat) (x : Setter), s.setters[j]? = some x → (x.pc = .sendLocked ∨ x.pc = .sendUnlocked) →
     x.head ≤ s.heads.getD x.conn 0
@@ -70,16 +72,16 @@ theorem snapOk_mono {s s' : State} {seqs acc} (hm : ∀ c, s.heads.getD c 0 ≤ 
   ⟨fun k q hq => Nat.le_trans (h.1 k q hq) (hm k), fun k c hc => ⟨(h.2 k c hc).1, Nat.le_trans (h.2 k c hc).2 (hm k)⟩⟩
 
 theorem invL_readOk {v s a s'} (h : InvL s) (hs : step v s a = some s') :
-    ∀ i seqs, s'.run = .ubRead i seqs → seqs.length = i ∧ SnapOk s' seqs [] := by
+    ∀ i seqs rts, s'.run = .ubRead i seqs rts → seqs.length = i ∧ SnapOk s' seqs [] := by
   have hm := heads_mono hs
   have hro := h.readOk
-  intro i seqs hr
-  have key : (∃ j q, s.run = .ubRead j q ∧ ((j = i ∧ q = seqs) ∨
+  intro i seqs rts hr
+  have key : (∃ j q r, s.run = .ubRead j q r ∧ ((j = i ∧ q = seqs) ∨
       (i = j + 1 ∧ seqs = q ++ [BitVec.ofNat 32 (s.heads.getD j 0)] ∧ s'.heads = s.heads))) ∨
       (i = 0 ∧ seqs = []) := by
     cases a <;> step_cases hs <;> grind [State.setW, State.setS]
-  rcases key with ⟨j, q, hj, hcase⟩ | ⟨rfl, rfl⟩
-  · obtain ⟨hl, hok⟩ := hro j q hj
+  rcases key with ⟨j, q, r, hj, hcase⟩ | ⟨rfl, rfl⟩
+  · obtain ⟨hl, hok⟩ := hro j q r hj
     rcases hcase with ⟨rfl, rfl⟩ | ⟨rfl, rfl, hh⟩
     · exact ⟨hl, snapOk_mono hm hok⟩
     · refine ⟨by simp [hl], ?_, by intro k c hc; simp at hc⟩
@@ -94,20 +96,20 @@ theorem invL_readOk {v s a s'} (h : InvL s) (hs : step v s a = some s') :
   · exact ⟨rfl, by intro k q hq; simp at hq, by intro k c hc; simp at hc⟩
 
 theorem invL_selOk {v s a s'} (h : InvL s) (hs : step v s a = some s') :
-    ∀ i seqs acc, s'.run = .ubSel i seqs acc → acc.length = i ∧ SnapOk s' seqs acc := by
+    ∀ i seqs rts acc, s'.run = .ubSel i seqs rts acc → acc.length = i ∧ SnapOk s' seqs acc := by
   have hm := heads_mono hs
   have hro := h.readOk
   have hso := h.selOk
-  intro i seqs acc hr
-  have key : (∃ j, s.run = .ubRead j seqs ∧ i = 0 ∧ acc = [] ∧ s'.heads = s.heads) ∨
-      (∃ j q, s.run = .ubSel j seqs q ∧ ((j = i ∧ q = acc) ∨
+  intro i seqs rts acc hr
+  have key : (∃ j r, s.run = .ubRead j seqs r ∧ i = 0 ∧ acc = [] ∧ s'.heads = s.heads) ∨
+      (∃ j q, s.run = .ubSel j seqs rts q ∧ ((j = i ∧ q = acc) ∨
         (i = j + 1 ∧ s'.heads = s.heads ∧ ∃ al rt sq, acc = q ++ [PoolSelect.Conn.mk j al sq rt] ∧
           (sq = seqs.getD j 0 ∨ sq = BitVec.ofNat 32 (s.heads.getD j 0))))) := by
     cases a <;> step_cases hs <;> grind [State.setW, State.setS]
-  rcases key with ⟨j, hj, rfl, rfl, hh⟩ | ⟨j, q, hj, hcase⟩
-  · obtain ⟨_, hok⟩ := hro j seqs hj
+  rcases key with ⟨j, r, hj, rfl, rfl, hh⟩ | ⟨j, q, hj, hcase⟩
+  · obtain ⟨_, hok⟩ := hro j seqs r hj
     exact ⟨rfl, snapOk_mono hm hok⟩
-  · obtain ⟨hl, hok⟩ := hso j seqs q hj
+  · obtain ⟨hl, hok⟩ := hso j seqs rts q hj
     rcases hcase with ⟨rfl, rfl⟩ | ⟨rfl, hh, al, rt, sq, rfl, hsq⟩
     · exact ⟨hl, snapOk_mono hm hok⟩
     · refine ⟨by simp [hl], by rw [hh]; exact hok.1, ?_⟩
@@ -127,40 +129,75 @@ theorem invL_selOk {v s a s'} (h : InvL s) (hs : step v s a = some s') :
           | some x => simpa [hl] using hok.1 j x hq
         · rw [hl]; exact ofNat_toNat_le _
 
+theorem invL_selLe {v s a s'} (h : InvL s) (hs : step v s a = some s') :
+    ∀ i seqs rts acc, s'.run = .ubSel i seqs rts acc → i ≤ s'.heads.length := by
+  have hlen := heads_length hs
+  have selLe := h.selLe
+  cases a <;> step_cases hs <;> grind [State.setW, State.setS]
+
+theorem invL_bestOk {v s a s'} (h : InvL s) (hs : step v s a = some s') :
+    ∀ c, s'.best = some c → c < s'.heads.length := by
+  have hlen := heads_length hs
+  have bestOk := h.bestOk
+  have hso := h.selOk
+  have hsl := h.selLe
+  cases a with
+  | ubSet =>
+    simp only [step] at hs
+    split at hs
+    · rename_i i seqs rts acc hrun
+      have hk : ∀ c, PoolSelect.selectWith false s.strategy (PoolSelect.maxOfSeqs seqs) acc = some c →
+          c.id < s.heads.length := by
+        intro c hsel
+        obtain ⟨k, hk⟩ := List.mem_iff_getElem?.mp (selectWith_mem hsel)
+        have hid := ((hso i seqs rts acc hrun).2.2 k c hk).1
+        have hkl := (List.getElem?_eq_some_iff.mp hk).1
+        have := (hso i seqs rts acc hrun).1
+        have := hsl i seqs rts acc hrun
+        omega
+      split at hs
+      · split at hs
+        · cases hs; exact bestOk
+        · rename_i c hsel
+          split at hs <;> (cases hs; intro c' hc'; simp only [Option.some.injEq] at hc'; subst hc'; exact hk c hsel)
+      · cases hs
+    · cases hs
+  | _ => step_cases hs <;> grind [State.setW, State.setS]
+
 theorem invL_connOk {v s a s'} (h : InvL s) (hs : step v s a = some s') :
     ∀ (j : Nat) (x : Setter), s'.setters[j]? = some x → x.conn < s'.heads.length := by
-  obtain ⟨readOk, selOk, connOk, sendLe, updLe, wantLe, loopLe, putLe, logLe⟩ := h
+  obtain ⟨readOk, selOk, selLe, bestOk, connOk, sendLe, updLe, wantLe, loopLe, putLe, logLe⟩ := h
   cases a <;> step_cases hs <;> grind [State.setW, State.setS, RunPc.lockW, RunPc.lockR]
 
 theorem invL_sendLe {v s a s'} (h : InvL s) (hs : step v s a = some s') :
     ∀ (j : Nat) (x : Setter), s'.setters[j]? = some x → (x.pc = .sendLocked ∨ x.pc = .sendUnlocked) →
     x.head ≤ s'.heads.getD x.conn 0 := by
-  obtain ⟨readOk, selOk, connOk, sendLe, updLe, wantLe, loopLe, putLe, logLe⟩ := h
+  obtain ⟨readOk, selOk, selLe, bestOk, connOk, sendLe, updLe, wantLe, loopLe, putLe, logLe⟩ := h
   have hm := heads_mono hs
   cases a <;> step_cases hs <;> grind [State.setW, State.setS, RunPc.lockW, RunPc.lockR, getD_set_self]
 
 theorem invL_updLe {v s a s'} (h : InvL s) (hs : step v s a = some s') :
     ∀ e ∈ s'.upd, e.2 ≤ s'.heads.getD e.1 0 := by
-  obtain ⟨readOk, selOk, connOk, sendLe, updLe, wantLe, loopLe, putLe, logLe⟩ := h
+  obtain ⟨readOk, selOk, selLe, bestOk, connOk, sendLe, updLe, wantLe, loopLe, putLe, logLe⟩ := h
   have hm := heads_mono hs
   cases a <;> step_cases hs <;> grind [State.setW, State.setS, RunPc.lockW, RunPc.lockR]
 
 theorem invL_wantLe {v s a s'} (h : InvL s) (hs : step v s a = some s') :
     ∀ c h, (s'.run = .nWant c h ∨ s'.run = .nCheck c h) → h ≤ s'.heads.getD c 0 := by
-  obtain ⟨readOk, selOk, connOk, sendLe, updLe, wantLe, loopLe, putLe, logLe⟩ := h
+  obtain ⟨readOk, selOk, selLe, bestOk, connOk, sendLe, updLe, wantLe, loopLe, putLe, logLe⟩ := h
   have hm := heads_mono hs
   cases a <;> step_cases hs <;> grind [State.setW, State.setS, RunPc.lockW, RunPc.lockR]
 
 theorem invL_loopLe {v s a s'} (h : InvL s) (hs : step v s a = some s') :
     ∀ sw h todo, s'.run = .nLoop sw h todo → ∃ c, s'.best = some c ∧ h ≤ s'.heads.getD c 0 := by
   have hso := h.selOk
-  obtain ⟨readOk, selOk, connOk, sendLe, updLe, wantLe, loopLe, putLe, logLe⟩ := h
+  obtain ⟨readOk, selOk, selLe, bestOk, connOk, sendLe, updLe, wantLe, loopLe, putLe, logLe⟩ := h
   have hm := heads_mono hs
   cases a with
   | ubSet =>
     simp only [step] at hs
     split at hs
-    · rename_i i seqs acc hrun
+    · rename_i i seqs rts acc hrun
       split at hs
       · split at hs
         · cases hs; intro sw h todo hr; cases hr
@@ -170,7 +207,7 @@ theorem invL_loopLe {v s a s'} (h : InvL s) (hs : step v s a = some s') :
             intro sw h todo hr
             cases hr
             obtain ⟨k, hk⟩ := List.mem_iff_getElem?.mp (selectWith_mem hsel)
-            obtain ⟨hid, hle⟩ := (hso i seqs acc hrun).2.2 k c hk
+            obtain ⟨hid, hle⟩ := (hso i seqs rts acc hrun).2.2 k c hk
             exact ⟨c.id, rfl, by rw [hid]; exact hle⟩
           · cases hs; intro sw h todo hr; cases hr
       · cases hs
@@ -179,25 +216,28 @@ theorem invL_loopLe {v s a s'} (h : InvL s) (hs : step v s a = some s') :
 
 theorem invL_putLe {v s a s'} (h : InvL s) (hs : step v s a = some s') :
     ∀ sw h h' w todo, s'.run = .nPut sw h h' w todo → ∃ c, s'.best = some c ∧ h ≤ s'.heads.getD c 0 := by
-  obtain ⟨readOk, selOk, connOk, sendLe, updLe, wantLe, loopLe, putLe, logLe⟩ := h
+  obtain ⟨readOk, selOk, selLe, bestOk, connOk, sendLe, updLe, wantLe, loopLe, putLe, logLe⟩ := h
   have hm := heads_mono hs
   cases a <;> step_cases hs <;> grind [State.setW, State.setS, RunPc.lockW, RunPc.lockR]
 
 theorem invL_logLe {v s a s'} (h : InvL s) (hs : step v s a = some s') :
     ∀ e ∈ s'.log, e.2.2 ≤ s'.heads.getD e.2.1 0 := by
-  obtain ⟨readOk, selOk, connOk, sendLe, updLe, wantLe, loopLe, putLe, logLe⟩ := h
+  obtain ⟨readOk, selOk, selLe, bestOk, connOk, sendLe, updLe, wantLe, loopLe, putLe, logLe⟩ := h
   have hm := heads_mono hs
   cases a <;> step_cases hs <;> grind [State.setW, State.setS, RunPc.lockW, RunPc.lockR]
 
 theorem invL_step {v s a s'} (h : InvL s) (hs : step v s a = some s') : InvL s' :=
-  ⟨invL_readOk h hs, invL_selOk h hs, invL_connOk h hs, invL_sendLe h hs, invL_updLe h hs, invL_wantLe h hs, invL_loopLe h hs, invL_putLe h hs,
+  ⟨invL_readOk h hs, invL_selOk h hs, invL_selLe h hs, invL_bestOk h hs, invL_connOk h hs, invL_sendLe h hs, invL_updLe h hs, invL_wantLe h hs, invL_loopLe h hs, invL_putLe h hs,
    invL_logLe h hs⟩
 
-theorem invL_init (heads best targets pubs st rtts) (hp : ∀ p ∈ pubs, p.1 < heads.length) :
+theorem invL_init (heads best targets pubs st rtts) (hp : ∀ p ∈ pubs, p.1 < heads.length)
+    (hb : ∀ c, best = some c → c < heads.length) :
     InvL (mkInit heads best targets pubs st rtts) := by
   constructor
-  · intro i seqs hr; simp [mkInit] at hr
-  · intro i seqs acc hr; simp [mkInit] at hr
+  · intro i seqs rts hr; simp [mkInit] at hr
+  · intro i seqs rts acc hr; simp [mkInit] at hr
+  · intro i seqs rts acc hr; simp [mkInit] at hr
+  · intro c hc; simpa [mkInit] using hb c (by simpa [mkInit] using hc)
   · intro j x h
     simp only [mkInit, List.getElem?_map, Option.map_eq_some_iff] at h
     obtain ⟨p, hp', rfl⟩ := h
@@ -214,7 +254,7 @@ theorem invL_init (heads best targets pubs st rtts) (hp : ∀ p ∈ pubs, p.1 < 
 
 theorem reachable_invL {v s} (h : Reachable v s) : InvL s := by
   induction h with
-  | init heads best targets pubs st rtts hp hh => exact invL_init heads best targets pubs st rtts (fun p h => (hp p h).1)
+  | init heads best targets pubs st rtts hp hh hb => exact invL_init heads best targets pubs st rtts (fun p h => (hp p h).1) hb
   | step _ hs ih => exact invL_step ih hs
 
 /-- a log entry is appended only for the connection that is best at that very step -/
@@ -260,7 +300,7 @@ theorem invE_init (heads best targets pubs st rtts) : InvE (mkInit heads best ta
 
 theorem reachable_invE {v s} (h : Reachable v s) : InvE s := by
   induction h with
-  | init heads best targets pubs st rtts hp hh => exact invE_init ..
+  | init heads best targets pubs st rtts hp hh hb => exact invE_init ..
   | step hr hs ih => exact invE_step (reachable_invA hr) ih hs
 
 /-! ### Group P: with a best connection present nobody dereferences nil -/
